@@ -973,7 +973,37 @@ func (x *Exec) copiedPointers() map[types.Object]bool {
 
 func (x *Exec) sharedPointerWrite(l ast.Expr, env *Env) {
 	if t := x.sharedWriteType(l); t != nil {
+		// the variable written THROUGH keeps what is known about the other fields of its pointee: the store changes
+		// exactly one field of exactly that object (p.f = v, p.s.f = v with p a local pointer variable)
+		var keep types.Object
+		var keepVal Term
+		cur := ast.Unparen(l)
+		for {
+			se, ok := cur.(*ast.SelectorExpr)
+			if !ok {
+				break
+			}
+			if sel, isSel := x.cx.info.Selections[se]; !isSel || sel.Kind() != types.FieldVal {
+				break
+			}
+			cur = ast.Unparen(se.X)
+			if id, isId := cur.(*ast.Ident); isId {
+				// root.f = v (root the copied pointer itself) or root.p.f = v (the copied pointer is a field of the
+				// object root designates): the functional update below rewrites exactly that path of root; root's other
+				// fields are not touched by the store.  (Assumes one object does not hold two pointers to the same
+				// target object: assumption A12.)
+				if o := x.cx.info.Uses[id]; o != nil {
+					if v, have := env.vars[o]; have {
+						keep, keepVal = o, v
+					}
+				}
+				break
+			}
+		}
 		x.havocPointeesOf(t, env, types.ExprString(l))
+		if keep != nil {
+			env.vars[keep] = keepVal
+		}
 	}
 }
 
